@@ -258,6 +258,7 @@ class Engine:
                 self.variant_of[en + "::" + v] = d
         self.const_cache = {}
         self.fn_ids = {}    # function name -> small integer standing for its address
+        self.hints = []  # optional constraints that make a counterexample easier to replay natively
         self.stubs = {}  # last path segment of a callee -> generator(engine, args, pcs)
         self.solver = z3.Solver()
         self.query_timeout_ms = 600000
